@@ -1,12 +1,20 @@
 (* C14 -- Dynamic completion offers real, visible, applicable candidates.
-   Property theorems only; proofs live in Lemmas/.  PARTIAL: the hint bookkeeping threaded through
-   every parser is not modelled; what is proved is the soundness of the two filters that decide
-   which collected names are offered for what was typed.  "Always completion output", "only visible
-   names of the active path" and completeness for fresh prefixes are decided by the oracle on the
+   Property theorems only; proofs live in Lemmas/.  PARTIAL.  Completion has two stages: the parsers
+   push hints while they run on the line (src/params.rs, src/structs.rs), then Complete::complete
+   (src/complete_gen.rs) turns the collected hints into candidates.  The SECOND stage is modelled
+   (Model/Complete.v, tied to the code through a hook on explicit hint lists) and proved sound and
+   complete with respect to the hints: only hints of the deepest command level entered become
+   candidates; after `--` only positional ones; while an argument's value is typed no flag /
+   argument / command name is offered; names pass the name filters (a typed `--prefix`, an exactly
+   typed short name, a command prefix) and are offered in their preferred spelling; completer
+   values carry the typed `-s=` / `--long=` prefix; otherwise every matching hint is offered.
+   The FIRST stage (which hints the parsers push: visible leaves of the active path, nothing
+   hidden, nothing already given) is not modelled: "always completion output", "only visible names
+   of the active path" and completeness for fresh prefixes are decided by the oracle on the
    implementation (computed from the definition's AST). *)
 From Coq Require Import List NArith.
-From BpafModel Require Import Shell.
-From BpafLemmas Require Import ShellLaws.
+From BpafModel Require Import Shell Complete.
+From BpafLemmas Require Import ShellLaws CompleteLaws.
 Import ListNotations.
 
 (* a flag/argument name is offered only if the typed text is empty or `-`, or is exactly its short
@@ -30,8 +38,74 @@ Theorem C14_cmd_filter_sound_partial :
 Proof. exact cmd_matches_sound. Qed.
 Print Assumptions C14_cmd_filter_sound_partial.
 
+(* every candidate stems from a collected hint of the deepest command level entered (after `--`: a
+   positional one), through `comp_item` *)
+Theorem C14_candidates_from_deepest_hints_partial :
+  forall cs arg po nm px i,
+    In i (fst (complete cs arg po nm px)) ->
+    exists c, In c cs /\ comp_depth c = max_depth cs /\ (po = true -> is_pos c = true) /\
+              comp_item arg po px c = Some i.
+Proof. exact complete_sound. Qed.
+Print Assumptions C14_candidates_from_deepest_hints_partial.
+
+Theorem C14_deepest_is_deepest : forall cs c, In c cs -> comp_depth c <= max_depth cs.
+Proof. exact max_depth_ge. Qed.
+Print Assumptions C14_deepest_is_deepest.
+
+(* the shape of a candidate by the kind of its hint: names only through the name filters (with the
+   two theorems above: the typed text is a prefix / the exact short spelling), in the preferred
+   spelling; an argument shows `name=METAVAR`; a completer's value carries the typed `-s=` /
+   `--long=`; a metavariable placeholder replaces nothing; group and help are the hint's *)
+Theorem C14_candidate_shape_partial :
+  forall arg po px c i,
+    comp_item arg po px c = Some i ->
+    match c with
+    | CoFlag _ s l => arg_matches arg s l = Some (sc_subst i) /\ sc_pretty i = sc_subst i
+    | CoArgument _ s l mv => arg_matches arg s l = Some (sc_subst i) /\ sc_pretty i = sc_subst i ++ eq_sign :: mv
+    | CoCommand _ name s => cmd_matches arg name s = true /\ sc_subst i = name /\ sc_pretty i = name
+    | CoValue _ body _ =>
+      sc_pretty i = body /\
+      sc_subst i = match px with PxNA => body | PxShort s => dash :: s :: eq_sign :: body
+                            | PxLong l => dash :: dash :: l ++ eq_sign :: body end
+    | CoMeta _ meta _ => sc_subst i = [] /\ sc_pretty i = meta
+    | CoShell _ _ _ => False
+    end /\ sc_group i = ce_group (comp_extra c) /\ sc_help i = ce_help (comp_extra c).
+Proof. exact comp_item_shape. Qed.
+Print Assumptions C14_candidate_shape_partial.
+
+(* while the value of an argument is being typed, no flag, argument or command name is offered *)
+Theorem C14_value_mode_offers_no_names_partial :
+  forall cs arg po nm px i,
+    (exists c, In c cs /\ passes (max_depth cs) po c = true /\ only_value c = true) ->
+    In i (fst (complete cs arg po nm px)) ->
+    exists c, In c cs /\ only_value c = true /\ comp_item arg po px c = Some i.
+Proof. exact complete_value_mode. Qed.
+Print Assumptions C14_value_mode_offers_no_names_partial.
+
+(* otherwise every hint of the deepest level that matches what was typed is offered *)
+Theorem C14_matching_hints_offered_partial :
+  forall cs arg po nm px c i,
+    (forall c', In c' cs -> passes (max_depth cs) po c' = true -> only_value c' = false) ->
+    In c cs -> passes (max_depth cs) po c = true -> comp_item arg po px c = Some i ->
+    In i (fst (complete cs arg po nm px)).
+Proof. exact complete_names_complete. Qed.
+Print Assumptions C14_matching_hints_offered_partial.
+
 Example C14_example :
   arg_matches [45;45;118]%N (Some 118%N) (Some [118;101;114;98]%N) = Some [45;45;118;101;114;98]%N /\
   arg_matches [45;45;120]%N (Some 118%N) (Some [118;101;114;98]%N) = None /\
   cmd_matches [98]%N [98;117;105;108;100]%N None = true.
 Proof. repeat split; vm_compute; reflexivity. Qed.
+
+(* the second stage at work: hints of two levels, `--al` typed: only the deeper level's matching
+   names; with an argument's value being typed, only the value *)
+Example C14_example_complete :
+  let e d := mkExtra d None None in
+  fst (complete [CoFlag (e 0) None (Some [97;108;108]%N); CoFlag (e 1) (Some 97%N) (Some [97;108;112;104;97]%N);
+                 CoCommand (e 1) [97;108]%N None; CoFlag (e 1) None (Some [98]%N)]
+                [45;45;97;108]%N false true PxNA)
+    = [mkShow [45;45;97;108;112;104;97]%N [45;45;97;108;112;104;97]%N None None] /\
+  fst (complete [CoFlag (e 1) (Some 97%N) None; CoValue (e 1) [120]%N true; CoMeta (e 1) [70]%N true]
+                [] false false (PxLong [111]%N))
+    = [mkShow [45;45;111;61;120]%N [120]%N None None; mkShow [] [70]%N None None].
+Proof. split; vm_compute; reflexivity. Qed.
